@@ -109,7 +109,7 @@ def replay(ctx: common.Ctx, path: str, prop_sigs) -> int:
     w = f.get('witness') or {}
     if 'ops' in w:
         lf, texts, ops = w['lf'], w['texts'], [tuple(o) for o in w['ops']]
-        steps, fails = sd.run_history(lf, texts, ops)
+        steps, fails = sd.run_history(lf, texts, ops, all_iters_at=set(range(len(ops))) if w.get('all_iters') else None)
         for x in fails:
             print('monitor:', x['sig'], x['what'])
         bad = ctx.run_coq_cases('replay', PREAMBLE, 'scase', 'check_case', [sd.coq_case(lf, texts, steps)])
